@@ -1,23 +1,34 @@
 # /verif/Makefile — builds the Coq development (full .vo), extracts the model and builds the driver.
 COQMK = coq/Makefile.coq
 JOBS ?= 16
+COQFLAGS_TIMEOUT = 3000
 
-.PHONY: setup coq driver clean props
+.PHONY: setup coq driver driver-only clean tables
 
-setup: coq driver
+setup: tables coq driver
+
+tables:
+	/venv/bin/python tools/gen_tables.py all
 
 $(COQMK): coq/_CoqProject
 	cd coq && coq_makefile -f _CoqProject -o Makefile.coq
 
 coq: $(COQMK)
-	cd coq && timeout 3000 $(MAKE) -f Makefile.coq -j$(JOBS)
+	cd coq && timeout $(COQFLAGS_TIMEOUT) $(MAKE) -f Makefile.coq -j$(JOBS)
 
-driver: coq
+# only what the extracted model needs (no Proofs/, no Props/): a broken proof never stops the model
+coq/fmmodel.ml: $(COQMK) $(wildcard coq/Base/*.v coq/Gen/*.v coq/Model/*.v coq/Format/*.v coq/Extract/*.v)
+	cd coq && timeout $(COQFLAGS_TIMEOUT) $(MAKE) -f Makefile.coq -j$(JOBS) Extract/Extract.vo
+	touch coq/fmmodel.ml
+
+driver/fmdriver: coq/fmmodel.ml driver/main.ml
 	mkdir -p driver/_build
 	cp coq/fmmodel.ml coq/fmmodel.mli driver/main.ml driver/_build/
-	cd driver/_build && ocamlfind ocamlopt -O3 -w -a fmmodel.mli fmmodel.ml main.ml -o ../fmdriver 2>/dev/null || \
-	  (cd driver/_build && ocamlfind ocamlopt -w -a fmmodel.mli fmmodel.ml main.ml -o ../fmdriver)
+	cd driver/_build && ocamlfind ocamlopt -w -a fmmodel.mli fmmodel.ml main.ml -o ../fmdriver 2>&1 | tail -5
+
+driver-only: driver/fmdriver
+driver: driver/fmdriver
 
 clean:
 	-cd coq && $(MAKE) -f Makefile.coq clean
-	rm -rf driver/_build driver/fmdriver coq/fmmodel.ml coq/fmmodel.mli
+	rm -rf driver/_build driver/fmdriver coq/fmmodel.ml coq/fmmodel.mli coq/Makefile.coq coq/Makefile.coq.conf
